@@ -126,7 +126,10 @@ pub fn real_trace(v: &RunView, sid: u32) -> RealTrace {
                 t.inputs.push(evin_of(ev));
                 Some(Obs::ExtRecv(ev.name.clone()))
             }
-            RecKind::IntSend { ev } => Some(Obs::IntSend(ev.name.clone())),
+            RecKind::IntSend { ev } => Some(Obs::IntSend(match &ev.params {
+                Some(p) if !p.is_empty() => format!("{}{{{}}}", ev.name, p.iter().map(|(k, v)| format!("{}={}", k, v)).collect::<Vec<_>>().join(";")),
+                _ => ev.name.clone(),
+            })),
             RecKind::Enabled { tids } => Some(Obs::Enabled(tids.len())),
             RecKind::Method { name: "externalQueue.dequeue", enter: true } => Some(Obs::Idle),
             RecKind::Send { chan, ev, .. } if Some(r.task) == own_task => {
